@@ -149,3 +149,134 @@ def grammar_of_tree(j):
             walk(c)
     walk(j)
     return g
+
+
+# ---------------------------------------------------------------- formulas
+class Unprojectable(Exception):
+    """an object outside the wire format (the case becomes UNJUDGED, never OK)"""
+
+
+def _decode_z3_string(s):
+    import re as _re
+    return _re.sub(r"\\u\{([0-9a-fA-F]+)\}", lambda m: chr(int(m.group(1), 16)), s)
+
+
+def z3_to_term(e):
+    import z3
+    if z3.is_string_value(e):
+        return {"k": "str", "s": cps(_decode_z3_string(e.as_string()))}
+    if z3.is_int_value(e):
+        v = e.as_long()
+        if abs(v) >= 2 ** 31 - 1:
+            raise Unprojectable("integer out of range")
+        return {"k": "int", "i": v}
+    if z3.is_true(e):
+        return {"k": "bool", "b": True}
+    if z3.is_false(e):
+        return {"k": "bool", "b": False}
+    if z3.is_const(e) and e.decl().kind() == z3.Z3_OP_UNINTERPRETED:
+        return {"k": "var", "v": str(e)}
+    if not z3.is_app(e):
+        raise Unprojectable("not an application: %s" % e)
+    name = e.decl().name()
+    if name == "to_real":
+        return z3_to_term(e.arg(0))
+    name = {"if": "ite", "str.to_int": "str.to.int", "int.to.str": "str.from_int", "str.to.int": "str.to.int"}.get(name, name)
+    known = {"=", "distinct", "ite", "and", "or", "not", "=>", "xor", "+", "-", "*", "div", "mod", "abs", "^", "<", "<=", ">", ">=",
+             "str.len", "str.++", "str.at", "str.substr", "str.prefixof", "str.suffixof", "str.contains", "str.indexof", "str.replace",
+             "str.replace_all", "str.<", "str.<=", "str.is_digit", "str.to_code", "str.from_code", "str.to.int", "str.from_int",
+             "str.in_re", "str.to_re", "re.none", "re.all", "re.allchar", "re.++", "re.union", "re.inter", "re.*", "re.+", "re.opt",
+             "re.range", "re.comp", "re.diff", "re.loop", "re.^"}
+    if name not in known:
+        raise Unprojectable("unknown operator %s" % name)
+    p = []
+    if name in ("re.loop", "re.^"):
+        p = list(e.params())
+        if name == "re.loop" and len(p) == 1:
+            p = [p[0], -1]
+    return {"k": "app", "f": name, "args": [z3_to_term(c) for c in e.children()], "p": p}
+
+
+def _bind_atoms(elems):
+    from isla.language import DummyVariable
+    out = []
+    for el in elems:
+        if isinstance(el, list):
+            out.append({"k": "opt", "atoms": _bind_atoms(el)})
+        elif isinstance(el, DummyVariable):
+            if el.is_nonterminal:
+                out.append({"k": "nt", "n": el.n_type, "v": ""})
+            else:
+                out.extend({"k": "ch", "c": ord(c)} for c in el.n_type)
+        else:
+            out.append({"k": "nt", "n": el.n_type, "v": el.name})
+    return out
+
+
+def formula_to_json(f, tree_names=None):
+    """isla.language.Formula -> wire format.  Tree arguments (instantiated constants) are
+    mapped to variable names through tree_names: id -> name (the reference tree is 'start')."""
+    from isla import language as L
+    from isla.derivation_tree import DerivationTree
+    tree_names = tree_names or {}
+
+    def ref(x):
+        if isinstance(x, DerivationTree):
+            if x.id in tree_names:
+                return tree_names[x.id]
+            raise Unprojectable("tree argument without a name")
+        return x.name
+
+    def walk(g):
+        if isinstance(g, L.ForallFormula) or isinstance(g, L.ExistsFormula):
+            return {"op": "forall" if isinstance(g, L.ForallFormula) else "exists", "v": g.bound_variable.name,
+                    "ty": g.bound_variable.n_type, "in": ref(g.in_variable),
+                    "mexpr": _bind_atoms(g.bind_expression.bound_elements) if g.bind_expression is not None else [],
+                    "body": walk(g.inner_formula)}
+        if isinstance(g, L.ForallIntFormula) or isinstance(g, L.ExistsIntFormula):
+            return {"op": "forallint" if isinstance(g, L.ForallIntFormula) else "existsint", "v": g.bound_variable.name,
+                    "nb": 0, "body": walk(g.inner_formula)}
+        if isinstance(g, L.ConjunctiveFormula):
+            return {"op": "and", "args": [walk(a) for a in g.args]}
+        if isinstance(g, L.DisjunctiveFormula):
+            return {"op": "or", "args": [walk(a) for a in g.args]}
+        if isinstance(g, L.NegatedFormula):
+            return {"op": "not", "arg": walk(g.args[0])}
+        if isinstance(g, L.StructuralPredicateFormula):
+            args = []
+            for a in g.args:
+                if isinstance(a, str):
+                    args.append({"k": "int", "i": int(a)} if a.lstrip("-").isdigit() else {"k": "str", "s": a})
+                elif isinstance(a, int):
+                    args.append({"k": "int", "i": a})
+                else:
+                    args.append({"k": "var", "v": ref(a)})
+            return {"op": "pred", "name": g.predicate.name, "args": args}
+        if isinstance(g, L.SemanticPredicateFormula):
+            if g.predicate.name != "count":
+                raise Unprojectable("semantic predicate %s" % g.predicate.name)
+            a = g.args
+            num = a[2]
+            if isinstance(num, DerivationTree):
+                num = num.value if not num.children else str(num)
+            n = {"k": "int", "i": int(num)} if isinstance(num, str) else {"k": "var", "v": ref(num)}
+            return {"op": "count", "args": [{"k": "var", "v": ref(a[0])}, {"k": "str", "s": a[1]}, n]}
+        if isinstance(g, L.SMTFormula):
+            import z3
+            if z3.is_true(g.formula):
+                return {"op": "true"}
+            if z3.is_false(g.formula):
+                return {"op": "false"}
+            term = z3_to_term(g.formula)
+            # variables already instantiated by (possibly open) trees
+            sub = {v.name: ref(t) for v, t in g.substitutions.items()}
+
+            def rename(t):
+                if t["k"] == "var" and t["v"] in sub:
+                    return {"k": "var", "v": sub[t["v"]]}
+                if t["k"] == "app":
+                    return dict(t, args=[rename(x) for x in t["args"]])
+                return t
+            return {"op": "smt", "term": rename(term)}
+        raise Unprojectable("formula class %s" % type(g).__name__)
+    return walk(f)
